@@ -113,8 +113,8 @@ def _not_marker(s, marker):
 
 
 @st.composite
-def field_spec(draw, idx):
-    typ = draw(st.sampled_from(TYPES))
+def field_spec(draw, idx, types=TYPES):
+    typ = draw(st.sampled_from(types))
     d = {"name": None, "type": typ}
     explicit_type = True
     if typ == "string":
@@ -145,14 +145,22 @@ def field_spec(draw, idx):
 
 
 @st.composite
-def table(draw, max_rows=40):
-    delim = draw(st.sampled_from(DELIMS))
-    marker = _fix_marker(draw(marker_text), delim)
+def table(draw, max_rows=40, sparse=False):
+    # everyday delimiters (comma, tab, semicolon, pipe) are over-sampled, as is the empty marker
+    if sparse:  # numeric tables with everyday delimiters/markers and rows that are missing entirely
+        delim = draw(st.sampled_from(["\t", ",", ";", "|", "\t"]))
+        marker = _fix_marker(draw(st.sampled_from(["", "-", "", "NA"])), delim)
+    else:
+        delim = draw(st.one_of(st.sampled_from([",", "\t", ";", "|", "\t"]), st.sampled_from(DELIMS)))
+        marker = _fix_marker(draw(st.one_of(marker_text, st.sampled_from(["", "-", ""]))), delim)
     nf = draw(st.integers(1, 8))
     names = draw(st.lists(st.one_of(_idents, _idents, _uident), min_size=nf, max_size=nf, unique=True))
     fields = []
+    # a third of the tables are purely numeric (like the bundled data files): every cell of a
+    # row can then be missing at once
+    types = ["integer", "float", "complex"] if sparse else draw(st.sampled_from([TYPES, TYPES, ["integer", "float", "complex"]]))
     for i in range(nf):
-        f = draw(field_spec(i))
+        f = draw(field_spec(i, types))
         f["name"] = names[i]
         fields.append(f)
     nrows = draw(st.integers(1, max_rows))
@@ -168,6 +176,16 @@ def table(draw, max_rows=40):
                 base = st.one_of(base, st.just(_raw(typ, fv)))
         col = draw(st.lists(base, min_size=nrows, max_size=nrows))
         cols.append(col)
+    # plant a row in which every cell that can be missing equals its fill
+    if sparse or draw(st.booleans()):
+        r = draw(st.integers(0, nrows - 1))
+        for f, col in zip(fields, cols):
+            typ = f.get("type", "string")
+            if typ == "boolean":
+                continue
+            fv = _typed_fill(typ, f.get("fill", ""))
+            if not (typ == "string" and fv == marker):
+                col[r] = _raw(typ, fv)
     as_array = draw(st.booleans())
     return {"delimiter": delim, "missing": marker, "fields": fields, "cols": cols, "as_array": as_array}
 
@@ -512,6 +530,7 @@ def check_fault(case):
 
 ORACLES = [
     Oracle("roundtrip", table(10), check_roundtrip, classify=classify_rt, quick=600, thorough=3000),
+    Oracle("roundtrip_missing_rows", table(6, sparse=True), check_roundtrip, classify=classify_rt, quick=150, thorough=1000),
     Oracle("terse_schema_roundtrip", terse_case(), check_terse, classify=lambda c: "terse", quick=200, thorough=1000),
     Oracle("faults_refused", fault_case(), check_fault, classify=lambda c: c["fault"], quick=500, thorough=2000),
     Oracle(
